@@ -173,7 +173,7 @@ fn registry() -> Vec<CheckDef> {
         id: "C18",
         level: "fault_enumeration",
         workers: 16,
-        rule: "the (operation, pre-state, front-end, trigger) product of C02; for each, every filesystem call k of the fault-free trace x every errno plausible for that call (EIO, ESTALE everywhere; EACCES for path and metadata calls; ENOSPC for creating/writing calls, mkdir, link, rename, fsync; EMFILE for open/opendir) injected once, the operation then continues; non-trivial = the injected call was reached; distinct by construction (op, pre-state, front-end, trigger, k, errno)",
+        rule: "the (operation, pre-state, front-end, trigger) product of C02; for each, every filesystem call k of the fault-free trace x every errno plausible for that call (EIO, ESTALE everywhere; EACCES for path and metadata calls; ENOSPC for creating/writing calls, mkdir, link, rename, fsync; EMFILE for open/opendir; EXDEV for rename and link; EMLINK for link) injected once, the operation then continues (and no call of it may create or truncate a published name in place); non-trivial = the injected call was reached; distinct by construction (op, pre-state, front-end, trigger, k, errno)",
         run: kvlib::c18::run,
         replay: kvlib::c18::replay,
         assumptions: &["a failing close executes the real close first (Linux semantics)", "success is verified against the tree with the shim bypassed; Err although the effect happened is allowed", "ESTALE/ENOENT on a lookup's own open may legitimately turn a hit into a miss (documented as benign)", "the only panic accepted is the documented 'auto_sync failed' of Cache::set/put(path) under an injected fsync failure"],
